@@ -92,3 +92,53 @@ func faultBoolFunc(q *Query, cur Map, o *FunctionOptions, args []any) (any, erro
 	}
 	return true, nil
 }
+
+var c19TypeErrQueries = []string{
+	"SELECT id, o FROM t ORDER BY o.b",
+	"SELECT id, o FROM t ORDER BY o.b DESC",
+	"SELECT id, o, z FROM t ORDER BY z, o.b",
+	"SELECT id FROM t WHERE o.b > 0",
+	"SELECT id, o.b AS v FROM t",
+	"SELECT o.b AS k, COUNT(*) AS n FROM t GROUP BY o.b",
+	"SELECT id, COUNT(*) AS n FROM t GROUP BY id HAVING MAX(o.b) > 0",
+	"SELECT DISTINCT o.b AS v FROM t",
+	"SELECT x.id AS l, y.id AS r FROM t x JOIN t y ON `x.o.b` = `y.o.b`",
+	"SELECT x.id AS l, y.id AS r FROM t x LEFT JOIN t y ON `x.o.b` < `y.o.b`",
+	"SELECT id FROM t WHERE id IN (SELECT o.b AS v FROM `<-t`)",
+	"SELECT SUM(o.b) AS s FROM t",
+	"SELECT id FROM t WHERE o.b BETWEEN 0 AND 9",
+	"SELECT id, CASE WHEN o.b > 0 THEN 1 ELSE 0 END AS c FROM t",
+	"SELECT id FROM t UNION SELECT o.b AS id FROM t",
+}
+
+// H_C19_typeerrors: one row holds a number where every other row holds an
+// object; a path through it (`o.b`) is a type error in whichever clause
+// reads it, wherever the offending row stands: the query fails, no rows.
+func H_C19_typeerrors() {
+	qi := verif.Choose("query", len(c19TypeErrQueries))
+	n := verif.Choose("rows", maxRows(2, 3)) + 1
+	bad := verif.Choose("offending-row", 4)
+	if bad > n {
+		verif.Assume(false)
+	}
+	rows := make([]any, n)
+	for i := range rows {
+		x := verif.F64("b")
+		verif.Assume(x == x)
+		rows[i] = Map{"id": float64(i), "z": float64(1), "o": Map{"b": x}}
+	}
+	if qi < 3 && n < 2 {
+		verif.Assume(false) // a sort key is only read when two rows are compared
+	}
+	if bad > 0 {
+		rows[bad-1].(Map)["o"] = float64(7) // `.b` is not valid on a number
+	}
+	got, err := runQueryQuiet(Map{"t": rows}, c19TypeErrQueries[qi])
+	if bad > 0 {
+		verif.Assert(err != nil, "type-error-surfaces-as-error")
+	}
+	if err != nil {
+		verif.Assert(len(got) == 0, "no-rows-with-error")
+	}
+	verif.Reach("end")
+}
